@@ -286,6 +286,7 @@ REF_SHAPES = [
     ("same-http-80", "http://h.example:80/d/%s"), ("same-http-8080", "http://h.example:8080/d/%s"),
     ("other-http", "http://other.example/d/%s"), ("relative", "sub/%s"), ("same-userinfo", "http://u:p@h.example/d/%s"),
     ("same-upper", "HTTP://H.EXAMPLE/d/%s"), ("same-query", "http://h.example/d/%s?v=1"),
+    ("other-https", "https://other.example/d/%s"),
 ]
 ADDR_SHAPES = ["http://h.example/svc", "http://h.example:80/svc?x=1#f", "http://h.example:8080/svc", "https://h.example/svc",
                "http://u:p@h.example:80/svc", "http://[::1]:80/svc", "http://[::80]/svc", "HTTP://h.example/svc",
@@ -332,7 +333,7 @@ def e2e_case(ctx, res, force, wname, wloc, kind, shape, addr):
     st = z.settings.Settings(force_https=force)
     key = (force, wname, kind, sname, addr)
     res.case(key=key, nontrivial=True)
-    res.count("e2e:" + kind.replace("|same-http", "").replace("|relative", ""))
+    res.count("e2e:" + kind.replace("|same-http", "").replace("|relative", "").replace("|other-https", "|via-other-host"))
     res.count("wsdl:" + wname)
     try:
         if wloc is None:
@@ -408,7 +409,7 @@ def run(ctx):
     del PENDING[:]
     function_grid(ctx, res)
     kinds = ["wsdl:import", "xsd:import", "xsd:include"]
-    chains = ["chain:|%s|%s|%s" % (k1, s1, k2) for k1 in SECOND for s1 in ("same-http", "relative") for k2 in SECOND[k1]]
+    chains = ["chain:|%s|%s|%s" % (k1, s1, k2) for k1 in SECOND for s1 in ("same-http", "relative", "other-https") for k2 in SECOND[k1]]
     n = 0
     combos = []
     for force in (True, False):
@@ -442,7 +443,7 @@ def run(ctx):
     res.programs = len(combos)
     res.rule = ("function grid: 7 schemes x 14 netloc shapes x 4 paths x 2 queries x 2 fragments through url_http_to_https; "
                 "2 x 7 bases x 14 references through normalize_location; end-to-end: force on/off x 5 WSDL locations "
-                "(https, http, HTTPS, https:8443, stream) x {wsdl:import, xsd:import, xsd:include} x 9 reference shapes, two-hop chains (3 first-hop kinds x 2 first-hop shapes x 2-3 second-hop kinds x 9 shapes; the referring document of the second hop is the first hop as fetched), "
+                "(https, http, HTTPS, https:8443, stream) x {wsdl:import, xsd:import, xsd:include} x 10 reference shapes, two-hop chains (3 first-hop kinds x 3 first-hop shapes - same host over http, relative, another host over https - x 2-3 second-hop kinds x 10 shapes; the referring document of the second hop is the first hop as fetched), "
                 "plus 11 address shapes x 3 bindings, all through a recording transport. distinct = distinct grid point; every point is non-trivial")
     return res
 
